@@ -16,7 +16,8 @@
 
     The float64 fields of [signal] are bit patterns; [*_f] functions take the decoded floats.
 
-    DEFINITIONS ONLY - proofs are in Descriptor/FloatProofs.v and Descriptor/PhysicalProofs.v. *)
+    DEFINITIONS ONLY - proofs are in Descriptor/FloatProofs.v (float32 signals), Descriptor/PhysicalProofs.v
+    (clamp, saturation, monotonicity) and Descriptor/RoundTrip.v (round-trip bounds). *)
 From Coq Require Import ZArith List Bool.
 From Flocq Require Import Core BinarySingleNaN.
 From Flocq Require Import Calc.Operations.
